@@ -53,6 +53,37 @@ def kappa(A):
     return max(1.0, ninf(A) * ninf(Ai)), Ai
 
 
+def kappa_eq(A):
+    """condition number and inverse in equilibrated coordinates d_a = sqrt(|A_aa|): (kappa_inf(D^-1 A D^-1), A^-1, d).
+    A channel whose variance is many orders of magnitude above the others (a masked channel) then counts with the
+    conditioning of the correlation structure, not with the ratio of the units — as the closed-form / LU inverses of a
+    symmetric positive definite matrix behave (their errors are invariant under a symmetric diagonal scaling up to
+    the pivot order)."""
+    n = len(A)
+    d = [math.sqrt(abs(float(A[a][a]))) or 1.0 for a in range(n)]
+    Ae = [[float(A[a][b]) / (d[a] * d[b]) for b in range(n)] for a in range(n)]
+    Aei = finv(Ae)
+    if Aei is None:
+        return float("inf"), None, d, None
+    Ai = [[Aei[a][b] / (d[a] * d[b]) for b in range(n)] for a in range(n)]
+    return max(1.0, ninf(Ae) * ninf(Aei)), Ai, d, Aei
+
+
+def kappa_col(A):
+    """kappa_inf of A with every column scaled to unit maximum.  Eigen's inverse() / determinant() of a matrix larger
+    than 4 x 4 go through LU with partial (row) pivoting, whose pivot choice and rounding errors are invariant under
+    column scalings but not under row scalings: a masked channel that is *coupled* to the ordinary ones
+    (covariance ~ sqrt(1e15 * r) next to variances r) makes the standard correction lose digits (observed 1e-10 where
+    the serial one, inverting 3 x 3 blocks in closed form, keeps 1e-17), an uncoupled one does not."""
+    n = len(A)
+    dc = [max(abs(float(A[a][b])) for a in range(n)) or 1.0 for b in range(n)]
+    Ae = [[float(A[a][b]) / dc[b] for b in range(n)] for a in range(n)]
+    Aei = finv(Ae)
+    if Aei is None:
+        return float("inf")
+    return max(1.0, ninf(Ae) * ninf(Aei))
+
+
 def fabs(A):
     return [[abs(float(x)) for x in row] for row in A]
 
@@ -72,6 +103,7 @@ def ut_weights(n, alpha, beta, kappa_):
 
 UT_EXACT = [  # (n, alpha, beta, kappa): every sqrt(wc_j) is exact (the model run is then exact throughout)
     (1, 1.0, 0.5, 1.0), (2, 1.0, 1.0, 0.0), (2, 1.0, 0.0, 0.0), (4, 1.0, 0.5, 4.0), (3, 1.0, 0.375, 5.0), (1, 1.0, 0.125, 7.0),
+    (5, 1.0, 0.1875, 3.0), (6, 1.0, 0.0, 2.0), (7, 1.0, 0.125, 1.0),
 ]
 
 
@@ -93,6 +125,66 @@ def gen_ut(r, n, style):
     return 1.0, 2.0, 0.0
 
 
+def masked_block(g, r, w, noise, chans, big, rho):
+    """a w x w noise block whose channels `chans` are masked (disabled by a huge variance `big`, the same in every
+    block) while the remaining channels carry an ordinary, distinct SPD block: such blocks agree with one another
+    to ~noise/big of their norm and are nevertheless different where it matters"""
+    rest = [a for a in range(w) if a not in chans]
+    sub = g.spd(len(rest), cond=10 ** r.uniform(0.3, 1.5), scale=noise * 10 ** r.uniform(-0.5, 0.5)) if rest else []
+    blk = vlib.mzeros(w, w)
+    for ia, a in enumerate(rest):
+        for ib, b in enumerate(rest):
+            blk[a][b] = sub[ia][ib]
+    for a in chans:
+        blk[a][a] = big
+        for b in rest:
+            if rho:
+                # a weak correlation between the masked and an ordinary channel (the block stays positive definite)
+                blk[a][b] = blk[b][a] = rho * r.uniform(-1, 1) * math.sqrt(big * blk[b][b]) / w
+    return blk
+
+
+def special_blocks(g, r, spec):
+    """full block-diagonal noise covariances whose consecutive diagonal blocks are equal / equal relative to their norm
+    / different, in every position"""
+    bs, mszmax, noise = spec["bs"], spec["mszmax"], spec["noise"]
+    nbk = (mszmax + bs - 1) // bs
+    R = vlib.mzeros(mszmax, mszmax)
+    blocks = []
+    if spec["rstyle"] == "masked":
+        big = noise * 10 ** r.choice([12.0, 15.0, 16.0, r.uniform(11, 17)])
+        nm = 1 if (bs <= 2 or r.random() < 0.7) else 2
+        chans = r.sample(range(bs), nm)
+        rho = r.choice([0.0, 0.0, 0.0, 0.1])
+        for i in range(nbk):
+            if i > 0 and r.random() < 0.15:
+                blocks.append([row[:] for row in blocks[-1]])      # sometimes exactly the previous block
+            else:
+                blocks.append(masked_block(g, r, bs, noise, chans if r.random() < 0.85 else r.sample(range(bs), nm), big, rho))
+    else:
+        # two or three distinct blocks A, B, C and near copies (relative 1e-13 .. 1e-9) in a random arrangement:
+        # A A B, A B B, A B A, A A' B ...; every position sees an equal and a different predecessor over the run
+        pool = [g.spd(bs, cond=10 ** r.uniform(0.3, 2.5), scale=noise * 10 ** r.uniform(-0.5, 0.5)) for _ in range(r.choice([2, 2, 3]))]
+        prev = None
+        for i in range(nbk):
+            u = r.random()
+            if prev is not None and u < 0.4:
+                blk = [row[:] for row in prev]
+            elif prev is not None and u < 0.55:
+                e = r.choice([1e-13, 1e-11, 1e-9])
+                blk = [[v * (1 + e) for v in row] for row in prev]
+            else:
+                blk = [row[:] for row in r.choice(pool)]
+            blocks.append(blk)
+            prev = blk
+    for i, blk in enumerate(blocks):
+        w = min(bs, mszmax - bs * i)
+        for a in range(w):
+            for c in range(w):
+                R[bs * i + a][bs * i + c] = blk[a][c]
+    return R
+
+
 def make_object(g, r, spec):
     """build one object (harness line + single-call lines) from a spec dict:
     n, nc, bs, red, mszmax, ut, mv, noise, xscale, yscale, calls = [dict(k, msz, kind, fail, rscale, toggle, dup)]"""
@@ -102,6 +194,8 @@ def make_object(g, r, spec):
     noise = spec["noise"]
     if red:
         R = g.spd(bs, cond=10 ** r.uniform(0.3, 2.5), scale=noise)
+        if spec.get("rstyle") == "masked":
+            R = masked_block(g, r, bs, noise, [r.randrange(bs)], noise * 1e15, 0.0)
     elif spec.get("blockdiag", True):
         R = vlib.mzeros(mszmax, mszmax)
         for i in range((mszmax + bs - 1) // bs):
@@ -117,6 +211,8 @@ def make_object(g, r, spec):
                     R[bs * i + a][bs * i + c] = blk[a][c]
     else:
         R = g.spd(mszmax, cond=10.0, scale=noise)
+    if not red and spec.get("rstyle") in ("masked", "blockpattern"):
+        R = special_blocks(g, r, spec)
     R = [[v * ys * ys for v in row] for row in R]
     H = [[r.uniform(-1.5, 1.5) * ys / xs for _ in range(n)] for _ in range(mszmax)]
     h0 = [r.uniform(-1, 1) * ys for _ in range(mszmax)]
@@ -128,6 +224,10 @@ def make_object(g, r, spec):
     for cs in spec["calls"]:
         k, msz, kind, fail = cs["k"], cs["msz"], cs["kind"], cs["fail"]
         means = [[r.uniform(-2, 2) * xs for _ in range(n)] for _ in range(k)]
+        if spec.get("farmean"):
+            # means far from the origin relative to the spread (|m| / sqrt(P) = 1e3 .. 1e7)
+            far = [r.choice([-1, 1]) * spec["farmean"] * r.uniform(0.5, 1) for _ in range(n)]
+            means = [[v + f for v, f in zip(mm, far)] for mm in means]
         Ps = [[[v * xs * xs for v in row] for row in g.spd(n, cond=10 ** r.uniform(0, 3), scale=10 ** r.uniform(-1.5, 0.3))] for _ in range(k)]
         if cs.get("dup") and k >= 2:
             # near-duplicate components: equal, or equal up to a relative 1e-9 / one weak direction
@@ -170,8 +270,21 @@ def gen_case(g, tier, idx):
     r = g.r
     mmax = 12 if tier == "quick" else 18
     style = r.choice(["full", "full", "reduced", "reduced", "nondividing", "nondividing", "exactsqrt", "smallnoise", "affine", "fault", "wc0zero",
-                      "scalar", "circular", "circular", "varsize", "varsize", "scaled", "scaled", "dupcomp", "manyblocks", "moved", "nullinnov", "nullinnov", "samediag"])
+                      "scalar", "circular", "circular", "varsize", "varsize", "scaled", "scaled", "dupcomp", "manyblocks", "moved", "nullinnov", "nullinnov", "samediag",
+                      "masked", "masked", "blockpattern", "farmean", "bigdim"])
+    if idx in (20, 21):
+        style = "masked"          # every run has them, whatever the seed
+    if idx == 22:
+        style = "blockpattern"
+    if idx in (23, 24):
+        style = "bigdim"
+    if idx in (25, 26, 27):
+        style = "scaled"          # one small measurement unit, one small state unit, one large pair on every run
     n = idx % 4 + 1 if idx < 8 else r.randint(1, 4)
+    if style == "bigdim":
+        # state dimension 5..7 (11..15 sigma points): the matrix products leave Eigen's small-size (coefficient-based)
+        # path for the blocked kernels from rows + cols + depth >= 20 on; an in-place `noalias` product is wrong only there
+        n = 5 + idx % 3 if idx < 30 else r.randint(5, 7)
     nc = r.randint(1, n) if style == "circular" else 0      # the last nc state rows are Euler angles
     bs = [1, 2, 3, 5, 6, 3, 2, 1][idx % 8] if idx < 16 else r.choice([1, 2, 2, 3, 3, 5, 6])
     nbmax = max(1, min(4, mmax // bs))
@@ -195,6 +308,8 @@ def gen_case(g, tier, idx):
         blockdiag = r.random() < 0.5
     if style == "wc0zero":
         ut = (1.0, 0.0, 0.0)          # lambda = 0: wc_0 = 0, the boundary of the guard
+    elif style in ("masked", "blockpattern", "samediag", "bigdim", "manyblocks") and r.random() < 0.6:
+        ut = gen_ut(r, n, "exactsqrt")      # exact model runs (theorem instances over Q) in the structured-noise styles too
     else:
         ut = gen_ut(r, n, style)
     noise = 10 ** r.uniform(-3, -1.5) if style == "smallnoise" else 10 ** r.uniform(-1.5, 0.7)
@@ -204,7 +319,15 @@ def gen_case(g, tier, idx):
         kind = 0
         ylim = min(10.0, 120.0 / msz)      # det(S) ~ yscale^(2 msz) must stay inside the double range (the code takes log(det))
         xscale, yscale = 10 ** r.uniform(-10, 10), 10 ** r.uniform(-ylim, ylim)
+        if idx == 25:
+            yscale = 10 ** r.uniform(-ylim, -0.8 * ylim)      # absolute thresholds (`< 1e-14` on a squared quantity, `|det| < eps`) bite here
+        if idx == 26:
+            xscale = 10 ** r.uniform(-10, -8)
+        if idx == 27:
+            xscale, yscale = 10 ** r.uniform(8, 10), 10 ** r.uniform(0.8 * ylim, ylim)
     ncalls = r.choice([1, 2, 2, 3])
+    if style == "bigdim":
+        ncalls = r.choice([1, 2])
     if style in ("varsize", "moved"):
         ncalls = r.choice([2, 3, 3])
     calls = []
@@ -234,13 +357,27 @@ def gen_case(g, tier, idx):
         kind = 0
         for cs in calls:
             cs["kind"] = 0
+    if style == "farmean":
+        kind = r.choice([0, 0, 1])
+        for cs in calls:
+            cs["kind"] = kind
     if style == "samediag":
         bs = r.choice([2, 3])
         nb = r.randint(2, max(2, min(4, mmax // bs)))
         msz, red = nb * bs, 0
         for cs in calls:
             cs["msz"] = msz
-    spec = {"n": n, "nc": nc, "bs": bs, "red": red, "mszmax": msz, "ut": ut, "noise": noise, "xscale": xscale, "yscale": yscale,
+    rstyle = None
+    if style in ("masked", "blockpattern"):
+        # full noise covariance, >= 2 (pattern: >= 3) sub-measurements, consecutive blocks equal relative to their norm
+        bs = r.choice([2, 3, 3, 5, 6]) if style == "masked" else r.choice([1, 2, 2, 3])
+        lo = 2 if style == "masked" else 3
+        nb = r.randint(lo, max(lo, min(6, mmax // bs)))
+        msz, red, rstyle = nb * bs, (1 if (style == "masked" and r.random() < 0.15) else 0), style
+        for cs in calls:
+            cs["msz"] = msz
+    spec = {"n": n, "nc": nc, "bs": bs, "red": red, "mszmax": msz, "ut": ut, "noise": noise, "xscale": xscale, "yscale": yscale, "rstyle": rstyle,
+            "farmean": (10 ** r.uniform(3, 7)) if style == "farmean" else 0.0,
             "mv": r.choice([1, 2]) if style == "moved" else 0, "blockdiag": blockdiag, "samediag": style == "samediag", "calls": calls}
     hline, singles = make_object(g, r, spec)
     meta = {"style": style, "n": n, "nc": nc, "msz": msz, "bs": bs, "red": red, "ks": [c["k"] for c in calls], "kind": kind,
@@ -423,36 +560,54 @@ def tolerances(c, o, i):
     Y = [[(Yp[a][j] - pm[a]) * sq[j] for j in range(s)] for a in range(msz)]
     Xw = [[(X[a][j] - m[a]) * sq[j] for j in range(s)] for a in range(n)]
     S = vlib.madd(vlib.mmul(Y, vlib.mT(Y)), Rf)
-    kS, Si = kappa(S)
+    # every bound is evaluated in equilibrated measurement coordinates d_a = sqrt(S_aa) (noise blocks: sqrt(R_aa)): the
+    # results are invariant under a change of units of the single channels, and so (up to the pivot order) are the
+    # rounding errors of the two algorithms; a tolerance relative to the largest entry of R or S would hide every
+    # channel next to a masked one (variance 1e15)
+    kS, Si, dS, Sei = kappa_eq(S)
+    kS = max(kS, kappa_col(S))
     kR = 1.0
     for bk in blocks[:1] if red else blocks:
-        kR = max(kR, kappa(bk)[0])
-    Ri = finv(Rf)
+        kR = max(kR, kappa_eq(bk)[0], kappa_col(bk))
+    Ri = kappa_eq(Rf)[1]
     Cinv = vlib.madd(vlib.meye(s), vlib.mmul(vlib.mmul(vlib.mT(Y), Ri), Y))
     kC, C = kappa(Cinv)
     Pxy = vlib.mmul(Xw, vlib.mT(Y))
     K = vlib.mmul(Pxy, Si)
+    KD = [[K[a][b] * dS[b] for b in range(msz)] for a in range(n)]          # gain on the equilibrated innovation
+    nue = [nu[a] / dS[a] for a in range(msz)]
     # contract of sigma_point(): the input sigma points reproduce P (hypothesis hX of the theorems)
     Pxx = vlib.mmul(Xw, vlib.mT(Xw))
     hx_err = max(abs(Pxx[a][b] - P[a][b]) for a in range(n) for b in range(n)) / max(ninf(P), 1e-300)
-    nK = ninf(K)
-    tol_cov_u = 64 * EPS * msz * kS * (nK * nK * ninf(S) + ninf(P))
-    tol_cov_s = 64 * EPS * s * (kC + kR) * ninf(Xw) * ninf(vlib.mT(Xw))
+    nK = ninf(KD)
+    nSe = ninf([[S[a][b] / (dS[a] * dS[b]) for b in range(msz)] for a in range(msz)])
+    mmax = max(abs(v) for v in m)
+    # cancellation when the offsets are formed: Yp - pred_mean (each correction computes its own predicted mean: s
+    # roundings of size eps |Yp|) and X = m + sqrt(c P)_j as sigma_point() rounds it (eps |m|); relative to the spread
+    # these are the condition numbers of the offsets (means / predicted measurements far from the origin)
+    ey = max(4 * s * EPS * max(abs(v) for v in Yp[a]) / dS[a] for a in range(msz))
+    rs = math.sqrt(s)
+    far_cov = 4 * ey * (2 * nK * ninf(Xw) + 2 * rs * nK * nK)
+    far_mean = 4 * ey * ((ninf(Xw) + 2 * rs * nK) * msz * ninf(Sei) * max(abs(v) for v in nue) + nK)
+    tol_hx = 4 * EPS * mmax * ninf(Xw) * rs           # |Pxx - P|: the serial correction returns Pxx - ..., the standard one P - ...
+    tol_cov_u = 64 * EPS * msz * kS * (nK * nK * nSe + ninf(P)) + far_cov
+    tol_cov_s = 64 * EPS * s * (kC + kR) * ninf(Xw) * ninf(vlib.mT(Xw)) + far_cov
     d = vlib.mvec(vlib.mmul(vlib.mT(Y), Ri), nu)
-    nnu = max(abs(v) for v in nu)
-    tol_mean_u = 64 * EPS * msz * kS * (nK * nnu + max(abs(v) for v in m) + 1e-300)
-    tol_mean_s = 64 * EPS * s * (kC + kR) * (ninf(Xw) * sum(abs(v) for v in d) * math.sqrt(s) + max(abs(v) for v in m) + 1e-300)
+    nnu = max(abs(v) for v in nue)
+    tol_mean_u = 64 * EPS * msz * kS * (nK * nnu + mmax + 1e-300) + far_mean
+    tol_mean_s = 64 * EPS * s * (kC + kR) * (ninf(Xw) * sum(abs(v) for v in d) * math.sqrt(s) + mmax + 1e-300) + far_mean
     av = [abs(v) for v in nu]
     aSi = fabs(Si)
     bq = sum(av[a] * aSi[a][b] * av[b] for a in range(msz) for b in range(msz))
-    tolL_u = 0.5 * (64 * EPS * msz * kS * bq + logdet_tol(msz, kS))
+    far_lik = ey * msz * ninf(Sei) * (2 * sum(abs(v) for v in nue) + 2 * rs)      # the same cancellation, in nu and in log det S
+    tolL_u = 0.5 * (64 * EPS * msz * kS * bq + logdet_tol(msz, kS)) + far_lik
     T = vlib.mmul(vlib.mmul(vlib.mmul(fabs(Y), fabs(C)), fabs(vlib.mT(Y))), fabs(Ri))
     for a in range(msz):
         T[a][a] += 1.0
     G = vlib.mmul(fabs(Ri), T)
     bqU = sum(av[a] * G[a][b] * av[b] for a in range(msz) for b in range(msz))
-    tolL_s = 0.5 * (64 * EPS * (msz + s) * (kR + kC) * bqU + nb * logdet_tol(bs, kR) + logdet_tol(s, kC))
-    return dict(kS=kS, kC=kC, kR=kR, hx_err=hx_err, tol_cov_u=tol_cov_u, tol_cov_s=tol_cov_s, tol_mean_u=tol_mean_u,
+    tolL_s = 0.5 * (64 * EPS * (msz + s) * (kR + kC) * bqU + nb * logdet_tol(bs, kR) + logdet_tol(s, kC)) + far_lik
+    return dict(kS=kS, kC=kC, kR=kR, hx_err=hx_err, tol_hx=tol_hx, tol_cov_u=tol_cov_u, tol_cov_s=tol_cov_s, tol_mean_u=tol_mean_u,
                 tol_mean_s=tol_mean_s, tolL_u=tolL_u, tolL_s=tolL_s)
 
 
@@ -563,10 +718,11 @@ def check_case(line, meta, hout, dline, dout, stats, notes):
         # property: serial == standard, on the implementation
         e_cov = max(abs(a - b) for a, b in zip(sc[ci], uc[ci]))
         e_mean = max(abs(a - b) for a, b in zip(sm[mi], um[mi]))
-        relrec(stats, "max_relerr_cov_S_vs_U", e_cov, T["tol_cov_s"] + T["tol_cov_u"])
+        tcov = T["tol_cov_s"] + T["tol_cov_u"] + T["tol_hx"]
+        relrec(stats, "max_relerr_cov_S_vs_U", e_cov, tcov)
         relrec(stats, "max_relerr_mean_S_vs_U", e_mean, T["tol_mean_s"] + T["tol_mean_u"])
-        if not (e_cov <= T["tol_cov_s"] + T["tol_cov_u"]):
-            probs.append(("prop", "cov-differs", "component %d: serial covariance differs from the standard one by %.3g (tol %.3g)" % (i, e_cov, T["tol_cov_s"] + T["tol_cov_u"])))
+        if not (e_cov <= tcov):
+            probs.append(("prop", "cov-differs", "component %d: serial covariance differs from the standard one by %.3g (tol %.3g)" % (i, e_cov, tcov)))
         if not (e_mean <= T["tol_mean_s"] + T["tol_mean_u"]):
             probs.append(("prop", "mean-differs", "component %d: serial mean differs from the standard one by %.3g (tol %.3g)" % (i, e_mean, T["tol_mean_s"] + T["tol_mean_u"])))
         tl = T["tolL_s"] + T["tolL_u"]
@@ -621,6 +777,293 @@ def check_case(line, meta, hout, dline, dout, stats, notes):
     return probs
 
 
+
+# ----------------------------------------------------------------------------- histories (round 4)
+
+def gen_history(g, tier, idx):
+    """one SUKFCorrection and one UKFCorrection object driven through a random history of correct() (any size, failing
+    model calls), skip(b) that stays in force, move construction and getLikelihood() at any moment (before the first
+    correction, after a move, after a skipped correction, with a changed noise covariance).
+    Returns (harness line `sukfh ...`, ops description for the model line / the evaluation)."""
+    r = g.r
+    n = r.randint(1, 3)
+    bs = r.choice([1, 2, 2, 3])
+    nb = r.randint(1, 3)
+    mszmax = nb * bs
+    red = r.randint(0, 1)
+    ut = gen_ut(r, n, "exactsqrt" if r.random() < 0.5 else "any")
+    noise = 10 ** r.uniform(-1.5, 0.5)
+    spec = {"n": n, "nc": 0, "bs": bs, "red": red, "mszmax": mszmax, "noise": noise,
+            "rstyle": r.choice([None, None, "masked", "blockpattern"]) if (not red and nb >= 2 and bs >= 2) else None}
+    if red:
+        R = g.spd(bs, cond=10 ** r.uniform(0.3, 2.0), scale=noise)
+    elif spec["rstyle"]:
+        R = special_blocks(g, r, spec)
+    else:
+        R = vlib.mzeros(mszmax, mszmax)
+        for i in range(nb):
+            blk = g.spd(bs, cond=10 ** r.uniform(0.3, 2.0), scale=noise * 10 ** r.uniform(-0.5, 0.5))
+            for a in range(bs):
+                for c in range(bs):
+                    R[bs * i + a][bs * i + c] = blk[a][c]
+    H = [[r.uniform(-1.5, 1.5) for _ in range(n)] for _ in range(mszmax)]
+    h0 = [r.uniform(-1, 1) for _ in range(mszmax)]
+    nops = r.randint(3, 8)
+    kinds = []
+    for i in range(nops):
+        kinds.append(r.choice(["C", "C", "C", "C", "Q", "Q", "Q", "S", "M"]))
+    pat = idx % 6
+    if pat == 0:
+        kinds = ["Q"] + kinds                       # before any correction
+    elif pat == 1:
+        kinds = ["C", "M", "Q"] + kinds             # right after a move
+    elif pat == 2:
+        kinds = ["C", "S1", "C", "Q", "S0"] + kinds   # after a skipped correction: the earlier likelihood stays
+    elif pat == 3:
+        kinds = ["C", "Cfail", "Q", "Q"] + kinds    # after a failed correction: none; asked twice
+    elif pat == 4:
+        kinds = ["C", "Q", "Qr"] + kinds            # the noise covariance changes between correction and query
+    ops = []
+    skip = False
+    last_ok = None          # (msz, rscale) of the last correction that was executed and succeeded
+    rs_call = 1.0
+    for kd in kinds:
+        if kd in ("C", "Cfail"):
+            k = r.choice([1, 2, 2, 3])
+            msz = mszmax if r.random() < 0.6 else bs * r.randint(1, nb)
+            if bs > 1 and r.random() < 0.1:
+                msz = r.choice([v for v in range(1, mszmax + 1) if v % bs != 0])
+            fail = (0, 0, 0)
+            if kd == "Cfail" or r.random() < 0.15:
+                j = r.randrange(3)
+                fail = tuple(1 if i == j else 0 for i in range(3))
+            rs_call = r.choice([1.0, 1.0, 0.5, 2.0])
+            means = [[r.uniform(-2, 2) for _ in range(n)] for _ in range(k)]
+            Ps = [g.spd(n, cond=10 ** r.uniform(0, 2.5), scale=10 ** r.uniform(-1.5, 0.3)) for _ in range(k)]
+            y = [r.uniform(-3, 3) for _ in range(msz)]
+            ops.append({"op": "C", "k": k, "msz": msz, "kind": r.choice([0, 1, 2, 3]), "fail": fail, "rscale": rs_call, "skipped": skip,
+                        "y": [hexd(v) for v in y], "means": [hexd(means[c][i]) for c in range(k) for i in range(n)],
+                        "covs": [hexd(Ps[c][i][j]) for c in range(k) for j in range(n) for i in range(n)],
+                        "outw": [hexd(r.uniform(0.01, 1.0)) for _ in range(k)]})
+            if not skip:
+                last_ok = (msz, rs_call) if (msz % bs == 0 and not any(fail)) else None
+        elif kd in ("S", "S0", "S1"):
+            b = {"S0": 0, "S1": 1}.get(kd, r.randint(0, 1))
+            skip = bool(b)
+            ops.append({"op": "S", "b": b})
+        elif kd == "M":
+            last_ok = None
+            ops.append({"op": "M"})
+        else:
+            mq, rs0 = last_ok if last_ok else (mszmax, 1.0)
+            rs = rs0 if (kd == "Q" and r.random() < 0.8) else rs0 * r.choice([0.5, 2.0, 4.0])
+            ops.append({"op": "Q", "rscale": rs, "mq": mq, "expect": last_ok is not None, "same_noise": rs == rs0,
+                        "src": max((i for i, o in enumerate(ops) if o["op"] == "C" and not o["skipped"]), default=None)})
+    toks = ["sukfh", str(n), "0", str(mszmax), str(bs), str(red)] + [hexd(v) for v in ut] + vlib.fmt_mat_cm(H) + [hexd(v) for v in h0] \
+        + vlib.fmt_mat_cm(R) + [str(len(ops))]
+    for o in ops:
+        if o["op"] == "C":
+            toks += ["C", str(o["k"]), str(o["msz"]), str(o["kind"])] + [str(f) for f in o["fail"]] + [hexd(o["rscale"])] + o["y"] + o["means"] + o["covs"] + o["outw"]
+        elif o["op"] == "S":
+            toks += ["S", str(o["b"])]
+        elif o["op"] == "M":
+            toks += ["M"]
+        else:
+            toks += ["Q", hexd(o["rscale"]), str(o["mq"])]
+    return " ".join(toks), {"n": n, "bs": bs, "red": red, "mszmax": mszmax, "R": R, "ops": ops, "ut": ut, "style": "history"}
+
+
+def noise_toks(hm, msz, rscale):
+    R, bs = hm["R"], hm["bs"]
+    if hm["red"]:
+        return [hexd(R[a][b] * rscale) for b in range(bs) for a in range(bs)]
+    return [hexd(R[a][b] * rscale) for b in range(msz) for a in range(msz)]
+
+
+def parse_history_out(h, hm):
+    """harness output of `sukfh` -> (s, wm, wc, [per-op records])"""
+    t = h.split()
+    n = hm["n"]
+    assert t[0] == "ok" and t[1] == "W"
+    s = int(t[2]); p = 3
+    wm = t[p:p + s]; p += s
+    wc = t[p:p + s]; p += s
+    recs = []
+    for o in hm["ops"]:
+        if o["op"] == "C":
+            k, msz = o["k"], o["msz"]
+            assert t[p] == "C" and t[p + 1] == "S"; p += 2
+            rec = {"s_mean": t[p:p + n * k]}; p += n * k
+            rec["s_cov"] = t[p:p + n * n * k]; p += n * n * k
+            if t[p] == "U":
+                p += 1
+                rec["u_mean"] = t[p:p + n * k]; p += n * k
+                rec["u_cov"] = t[p:p + n * n * k]; p += n * n * k
+            else:
+                assert t[p] == "Unone"; p += 1
+            assert t[p] == "X"; xc = int(t[p + 1]); p += 2
+            rec["X"] = t[p:p + n * xc]; rec["xcols"] = xc; p += n * xc
+            assert t[p] == "Y"; yc = int(t[p + 1]); p += 2
+            rec["Y"] = t[p:p + msz * yc]; rec["ycols"] = yc; p += msz * yc
+            recs.append(rec)
+        elif o["op"] == "Q":
+            assert t[p] == "Q"; p += 1
+            rec = {}
+            for tag in ("s", "u"):
+                if tag == "u":
+                    assert t[p] == "U"; p += 1
+                rec[tag + "_valid"] = t[p] == "lik"; cnt = int(t[p + 1]); p += 2
+                rec[tag + "_lik"] = [unhex(v) for v in t[p:p + cnt]]; p += cnt
+            recs.append(rec)
+        else:
+            recs.append({})
+    assert p == len(t)
+    return s, wm, wc, recs
+
+
+def history_driver_line(hm, s, wm, wc, recs):
+    n, bs, red = hm["n"], hm["bs"], hm["red"]
+    zero = hexd(0.0)
+    toks = ["sukfh", str(n), "0", str(bs), str(red), str(s), str(len(hm["ops"]))]
+    for o, rec in zip(hm["ops"], recs):
+        if o["op"] == "C":
+            k, msz = o["k"], o["msz"]
+            X = rec["X"] if rec["xcols"] == s * k else [zero] * (n * s * k)
+            Y = rec["Y"] if rec["ycols"] == s * k else [zero] * (msz * s * k)
+            toks += ["C", str(msz), str(k)] + [str(1 - f) for f in o["fail"]] + o["y"] + wm + wc + o["means"] + o["covs"] + o["outw"] + X + Y \
+                + noise_toks(hm, msz, o["rscale"])
+        elif o["op"] == "S":
+            toks += ["S", str(o["b"])]
+        elif o["op"] == "M":
+            toks += ["M"]
+        else:
+            toks += ["Q", str(o["mq"])] + noise_toks(hm, o["mq"], o["rscale"])
+    return " ".join(toks)
+
+
+def parse_history_model(d, hm):
+    """model observations: two lists (serial object, standard object), one entry per C / Q operation"""
+    t = d.split()
+    assert t[0] == "ok"
+    n = hm["n"]
+    p = 1
+    runs = []
+    for _ in range(2):
+        obs = []
+        for o in hm["ops"]:
+            if o["op"] == "C":
+                k = o["k"]
+                assert t[p] == "B"; p += 1
+                mean = [frac(v) for v in t[p:p + n * k]]; p += n * k
+                cov = [frac(v) for v in t[p:p + n * n * k]]; p += n * n * k
+                obs.append({"mean": mean, "cov": cov})
+            elif o["op"] == "Q":
+                if t[p] == "N":
+                    p += 1
+                    obs.append({"lik": None})
+                else:
+                    assert t[p] == "L"; cnt = int(t[p + 1]); p += 2
+                    obs.append({"lik": [unhex(v) for v in t[p:p + cnt]]}); p += cnt
+            else:
+                obs.append({})
+        runs.append(obs)
+        if len(runs) == 1:
+            assert t[p] == "U"; p += 1
+    return runs
+
+
+def check_history(hm, hout, dout, stats, notes, bump):
+    """property predicates on the implementation's own outputs (serial vs standard object over the history, belief
+    unchanged for non-multiples) and the tie of the history model (sukfSysRun / ukfSysRun) to both objects"""
+    probs = []
+    if not hout.startswith("ok"):
+        return [("prop", "history-impl-crash", "a history of valid operations failed: %s" % hout[:80])]
+    s, wm, wc, recs = parse_history_out(hout, hm)
+    if not dout.startswith("ok"):
+        return [("corr", "history-model-undefined", "history model not defined: %s" % dout[:40])]
+    ms_, mu_ = parse_history_model(dout, hm)
+    n, bs, red = hm["n"], hm["bs"], hm["red"]
+    all_div = all(o["msz"] % bs == 0 for o in hm["ops"] if o["op"] == "C")
+    tol_of = {}
+    for oi, (o, rec, m_s, m_u) in enumerate(zip(hm["ops"], recs, ms_, mu_)):
+        if o["op"] == "C":
+            k, msz = o["k"], o["msz"]
+            executed = not o["skipped"]
+            ok = executed and msz % bs == 0 and not any(o["fail"])
+            bump("history: correct() " + ("skipped" if not executed else ("corrects" if ok else ("size not a multiple" if msz % bs else "early return"))))
+            sm = [unhex(v) for v in rec["s_mean"]]; sc = [unhex(v) for v in rec["s_cov"]]
+            if not ok:
+                if executed and msz % bs != 0 and (rec["s_mean"] != o["means"] or rec["s_cov"] != o["covs"]):
+                    probs.append(("prop", "history-size-mismatch-not-identity", "operation %d: measurement size %d is not a multiple of the block size %d but the belief changed" % (oi, msz, bs)))
+                if rec["s_mean"] != o["means"] or rec["s_cov"] != o["covs"]:
+                    probs.append(("corr", "history-identity", "operation %d: a %s correct() changed the belief" % (oi, "skipped" if not executed else "failing")))
+                if m_s["mean"] != [Fraction(unhex(v)) for v in o["means"]] or m_s["cov"] != [Fraction(unhex(v)) for v in o["covs"]]:
+                    probs.append(("corr", "history-model-identity", "operation %d: the model does not return the predicted belief" % oi))
+                continue
+            if rec["xcols"] != s * k or rec["ycols"] != s * k:
+                probs.append(("prop", "history-no-sigma-points", "operation %d: a valid measurement of admissible size was not used by the serial correction" % oi))
+                continue
+            c = {"n": n, "nc": 0, "msz": msz, "bs": bs, "red": red, "k": k, "means": o["means"], "covs": o["covs"], "y": o["y"],
+                 "Rt": noise_toks(hm, msz, o["rscale"])}
+            oo = {"s": s, "wm": wm, "wc": wc, "X": rec["X"], "Y": rec["Y"], "xcols": rec["xcols"]}
+            Ts = [tolerances(c, oo, i) for i in range(k)]
+            tol_of[oi] = (c, oo, Ts)
+            for i in range(k):
+                T = Ts[i]
+                mi = slice(i * n, (i + 1) * n); ci = slice(i * n * n, (i + 1) * n * n)
+                e = max(abs(Fraction(a) - b) for a, b in zip(sc[ci], m_s["cov"][ci])) if all(math.isfinite(v) for v in sc[ci]) else float("inf")
+                relrec(stats, "max_relerr_history_cov_S_vs_model", e, T["tol_cov_s"])
+                if not (e <= T["tol_cov_s"]):
+                    probs.append(("corr", "history-sukf-cov", "operation %d component %d: serial covariance vs history model: %.3g (tol %.3g)" % (oi, i, float(e), T["tol_cov_s"])))
+                e = max(abs(Fraction(a) - b) for a, b in zip(sm[mi], m_s["mean"][mi])) if all(math.isfinite(v) for v in sm[mi]) else float("inf")
+                if not (e <= T["tol_mean_s"]):
+                    probs.append(("corr", "history-sukf-mean", "operation %d component %d: serial mean vs history model: %.3g (tol %.3g)" % (oi, i, float(e), T["tol_mean_s"])))
+                if "u_mean" in rec:
+                    um = [unhex(v) for v in rec["u_mean"]]; uc = [unhex(v) for v in rec["u_cov"]]
+                    e_cov = max(abs(a - b) for a, b in zip(sc[ci], uc[ci])); e_mean = max(abs(a - b) for a, b in zip(sm[mi], um[mi]))
+                    tcov = T["tol_cov_s"] + T["tol_cov_u"] + T["tol_hx"]
+                    if not (e_cov <= tcov):
+                        probs.append(("prop", "history-cov-differs", "operation %d component %d: serial covariance differs from the standard one by %.3g (tol %.3g)" % (oi, i, e_cov, tcov)))
+                    if not (e_mean <= T["tol_mean_s"] + T["tol_mean_u"]):
+                        probs.append(("prop", "history-mean-differs", "operation %d component %d: serial mean differs from the standard one by %.3g (tol %.3g)" % (oi, i, e_mean, T["tol_mean_s"] + T["tol_mean_u"])))
+                    if all_div:
+                        e = max(abs(Fraction(a) - b) for a, b in zip(uc[ci], m_u["cov"][ci]))
+                        if not (e <= T["tol_cov_u"]):
+                            probs.append(("corr", "history-ukf-cov", "operation %d component %d: standard covariance vs history model: %.3g (tol %.3g)" % (oi, i, float(e), T["tol_cov_u"])))
+        elif o["op"] == "Q":
+            bump("history: getLikelihood() " + ("with a likelihood" if o["expect"] else "without one") + ("" if o["same_noise"] else ", noise changed"))
+            # the serial object against the history model: availability exactly, values within the factorised-density tolerance
+            if rec["s_valid"] != (m_s["lik"] is not None):
+                probs.append(("corr", "history-likelihood-availability", "operation %d: getLikelihood() reports %s, the history model %s"
+                              % (oi, "a likelihood" if rec["s_valid"] else "none", "a likelihood" if m_s["lik"] is not None else "none")))
+            if rec["s_valid"] != o["expect"]:
+                notes["history:availability_vs_bookkeeping"] = notes.get("history:availability_vs_bookkeeping", 0) + 1
+            if all_div and rec["u_valid"] != (m_u["lik"] is not None):
+                probs.append(("corr", "history-ukf-likelihood-availability", "operation %d: the standard object reports %s, the history model %s"
+                              % (oi, "a likelihood" if rec["u_valid"] else "none", "a likelihood" if m_u["lik"] is not None else "none")))
+            # property, on the implementation: over a history of admissible measurements the two objects agree on whether a
+            # likelihood is available
+            if all_div and rec["s_valid"] != rec["u_valid"]:
+                probs.append(("prop", "history-likelihood-availability-differs", "operation %d: after the same history the serial correction reports %s, the standard one %s"
+                              % (oi, "a likelihood" if rec["s_valid"] else "none", "a likelihood" if rec["u_valid"] else "none")))
+            src = o["src"]
+            if rec["s_valid"] and m_s["lik"] is not None and src in tol_of:
+                c0, oo, _ = tol_of[src]
+                cq = dict(c0); cq["Rt"] = noise_toks(hm, c0["msz"], o["rscale"])
+                for i in range(min(len(rec["s_lik"]), len(m_s["lik"]), c0["k"])):
+                    Tq = tolerances(cq, oo, i)
+                    lim = 0.05
+                    if Tq["tolL_s"] <= lim and not lik_close(rec["s_lik"][i], m_s["lik"][i], Tq["tolL_s"]):
+                        probs.append(("corr", "history-sukf-lik", "operation %d component %d: serial likelihood %.17g, history model %.17g" % (oi, i, rec["s_lik"][i], m_s["lik"][i])))
+                    if o["same_noise"] and all_div and rec["u_valid"] and i < len(rec["u_lik"]):
+                        tl = Tq["tolL_s"] + Tq["tolL_u"]
+                        if tl <= lim and not lik_close(rec["s_lik"][i], rec["u_lik"][i], tl):
+                            probs.append(("prop", "history-likelihood-differs", "operation %d component %d: serial likelihood %.17g, standard %.17g (tol %.3g in the log)"
+                                          % (oi, i, rec["s_lik"][i], rec["u_lik"][i], tl)))
+                if len(rec["s_lik"]) != c0["k"]:
+                    probs.append(("prop", "history-likelihood-count", "operation %d: %d likelihood values for %d components" % (oi, len(rec["s_lik"]), c0["k"])))
+    return probs
+
 # ----------------------------------------------------------------------------- run
 
 def meta_of_single(line, style):
@@ -648,8 +1091,14 @@ def run(ctx):
     cases += grid_cases(ctx.gen("sukf-grid"), ctx.tier)      # exhaustive over (block size, measurement size)
     for i in range(ctx.n(140, 2500)):
         cases.append(gen_case(g, ctx.tier, i))
+    hist_cases = [gen_history(ctx.gen("sukf-history"), ctx.tier, i) for i in range(ctx.n(36, 400))]
     if ctx.replay:
         rep = json.load(open(ctx.replay))["replay"]
+        if "history" in rep:
+            hist_cases = [(rep["input_line"], rep["history"])]
+            rep = {"input_line": cases[0][0], "single_call_lines": cases[0][1]}
+        else:
+            hist_cases = []
         cases = [(rep["input_line"], rep.get("single_call_lines", [rep["input_line"]]), meta_of_single(rep.get("single_call_lines", [rep["input_line"]])[0], "replay"))]
         cases[0][2]["calls"] = len(cases[0][1])
     from checks.c15 import run_harness_confirmed
@@ -716,6 +1165,42 @@ def run(ctx):
                 probs = [("prop", "unreadable-result", "results of the corrections could not be evaluated (%s: %s); output: %s" % (type(e).__name__, str(e)[:80], ho[:120]))]
         for kind, key2, what in probs:
             (corr_bad if kind == "corr" else prop_bad).append((key2, "call %d of %d: %s" % (ci + 1, len(singles), what), hline, singles, hout[oi]))
+    # ---- histories: one object of each kind through correct / skip / move / getLikelihood sequences
+    hh, hlogs, hretried = run_harness_confirmed(binary, [c[0] for c in hist_cases]) if hist_cases else ([], [], 0)
+    hd_lines, hd_map = [], []
+    for (hline, hm), ho in zip(hist_cases, hh):
+        try:
+            s_, wm_, wc_, recs_ = parse_history_out(ho, hm)
+            hd_lines.append(history_driver_line(hm, s_, wm_, wc_, recs_))
+            hd_map.append(len(hd_lines) - 1)
+        except Exception:
+            hd_map.append(None)
+    hd_out = run_driver_parallel(hd_lines) if hd_lines else []
+    hist_prop, hist_corr = [], []
+    for (hline, hm), ho, di in zip(hist_cases, hh, hd_map):
+        hist["history"] = hist.get("history", 0) + 1
+        try:
+            if di is None:
+                probs = [("prop", "history-impl-crash", "a history of valid operations failed: %s" % ho[:80])] if not ho.startswith("ok") else \
+                        [("prop", "history-unreadable-result", "output of the history has an unexpected shape: %s" % ho[:120])]
+            else:
+                probs = check_history(hm, ho, hd_out[di], stats, notes, bump)
+        except Exception as e:
+            probs = [("prop", "history-unreadable-result", "results of the history could not be evaluated (%s: %s); output: %s" % (type(e).__name__, str(e)[:80], ho[:120]))]
+        for kind, key2, what in probs:
+            (hist_corr if kind == "corr" else hist_prop).append((key2, what, hline, hm, ho))
+    seen_h = set()
+    for key2, what, hline, hm, ho in hist_prop:
+        if key2 in seen_h:
+            continue
+        seen_h.add(key2)
+        ctx.violation(key2, "SUKFCorrection vs UKFCorrection objects over a history: " + what,
+                      {"harness": "h_sukf", "input_line": hline, "history": hm, "observed": ho[:3000]})
+    if hist_corr and not hist_prop and not prop_bad:
+        key2, what, hline, hm, ho = hist_corr[0]
+        ctx.violation("correspondence:" + key2, "history model and implementation disagree (%d findings): %s" % (len(hist_corr), what),
+                      {"harness": "h_sukf", "correspondence": "BFL/Model/SUKF.lean (sukfSysRun / ukfSysRun) vs SUKFCorrection.cpp / UKFCorrection.cpp / GaussianCorrection.cpp",
+                       "input_line": hline, "history": hm, "observed": ho[:3000]})
     seen = set()
     for key2, what, hline, singles, h in prop_bad:
         if key2 in seen:
@@ -729,7 +1214,9 @@ def run(ctx):
                       {"harness": "h_sukf", "correspondence": "BFL/Model/SUKF.lean vs SUKFCorrection.cpp / UKFCorrection.cpp",
                        "input_line": hline, "single_call_lines": singles, "observed": h[:3000]}, no_input=True)
     ctx.coverage.update({
-        "evaluations": len(calls), "distinct_nontrivial": len(nontrivial & distinct), "objects": len(cases),
+        "evaluations": len(calls) + sum(len(hm["ops"]) for _, hm in hist_cases), "distinct_nontrivial": len(nontrivial & distinct), "objects": len(cases) + len(hist_cases),
+        "histories": len(hist_cases), "history_operations": sum(len(hm["ops"]) for _, hm in hist_cases),
+        "history_model_vs_impl_disagreements": len(hist_corr), "history_property_failures_on_impl": len(hist_prop),
         "rule": "one SUKFCorrection and one additive UKFCorrection object per case, driven through 1..3 successive correct()+getLikelihood() calls (component count, "
                 "belief, measurement and failing calls vary from call to call; every call is checked): state dim 1..4, measurement = blocks(1..4) x sub_size in "
                 "{1,2,3,5,6}, 1..3 distinct components, h affine / sine / quadratic / coupled (harness-defined AdditiveMeasurementModel), block-diagonal R with distinct "
@@ -738,9 +1225,9 @@ def run(ctx):
                 "non-trivial = a call that actually corrects; distinct = distinct single-call inputs",
         "samples": [cases[0][0][:300], cases[-1][0][:300]],
         "style_histogram": hist, "branch_histogram": branch, "numeric": stats, "notes_outside_property": notes,
-        "traces_validated_against_impl": len([d for d in dmap if d is not None]),
+        "traces_validated_against_impl": len([d for d in dmap if d is not None]) + len([d for d in hd_map if d is not None]),
         "model_vs_impl_disagreements": len(corr_bad), "property_failures_on_impl": len(prop_bad),
-        "sanitizer_crashes": len(logs), "crashed_cases_rerun_individually": retried,
+        "sanitizer_crashes": len(logs) + len(hlogs), "crashed_cases_rerun_individually": retried + hretried,
     })
     ctx.assumptions += [
         "inverse routine: every matrix the model run inverts is inverted once and certified exactly over Q (A X = 1, X A = 1)",
